@@ -99,6 +99,10 @@ TraceBoundary ==
            <<"C02:reported-best-outside-strict-ranges[constraints-installed-mid-run]",
                (N.rfs /\ Finite(b.e) /\ consmid) => b.inbox>>,
            <<"C03:reported-solution-violates-constraints", (N.cfs /\ ~N.randomclip /\ Finite(b.e)) => b.consfix>>,
+           \* the same clause while no finite energy has been found yet (every evaluation so far returned +inf): the
+           \* statement makes no exception for it ("wherever the run is stopped")
+           <<"C03:reported-solution-violates-constraints[no-finite-energy-found]",
+               (N.cfs /\ ~N.randomclip /\ ~Finite(b.e)) => b.consfix>>,
            <<"C03:reported-energy-is-not-the-energy-of-the-constrained-point",
                (N.cfs /\ ~N.randomclip /\ clean /\ Finite(b.e) /\ b.consfix) => b.e = b.tot>> >>
            \* (b.tot is INF for a point outside the box: a finite energy reported there is not that point's energy)
